@@ -92,7 +92,7 @@ class Run:
     def finish(self, *, exhaustive=None, rule="") -> int:
         known = load_known()
         wall = time.time() - self.t0
-        rep_dir = os.path.join(VERIF, "replays", self.prop)
+        rep_dir = os.path.join(os.environ.get("XMC_REPLAY_DIR") or os.path.join(VERIF, "replays"), self.prop)
         unlisted = 0
         seen_known = {}
         seen_sig = set()
@@ -156,8 +156,9 @@ class Run:
             "wall_s": round(wall, 2),
             "violations": unlisted,
         }
-        os.makedirs(os.path.join(VERIF, "evidence"), exist_ok=True)
-        with open(os.path.join(VERIF, "evidence", f"{self.prop}.json"), "w") as f:
+        ev_dir = os.environ.get("XMC_EVIDENCE_DIR") or os.path.join(VERIF, "evidence")  # override: mutant screening only
+        os.makedirs(ev_dir, exist_ok=True)
+        with open(os.path.join(ev_dir, f"{self.prop}.json"), "w") as f:
             json.dump(ev, f, indent=1, sort_keys=True, default=str)
         print(f"[{self.prop}/{self.tier}] configs={self.configs} states={self.states} transitions={self.transitions} "
               f"terminals={self.terminals} outcomes={len(self.outcomes)} validated={self.validated} "
